@@ -137,6 +137,7 @@ package vnet
 //@   ensures [hit] m != nil ==> m == old(n.outboundMap[oKey]) && (oKey in n.outboundMap) && n.outboundMap[oKey] == m &&
 //@            m.expires >= tLook + n.natType.MappingLifeTime
 //@   ensures [miss] m == nil ==> !(oKey in n.outboundMap)
+//@   ensures [expired] forall k string :: {k in n.inboundMap} old(k in n.inboundMap) && !(k in n.inboundMap) ==> tLook > old(n.inboundMap[k].expires)
 //@   ensures [keep] (forall k string :: {k in n.outboundMap} (k in n.outboundMap) ==> old(k in n.outboundMap) && n.outboundMap[k] == old(n.outboundMap[k])) &&
 //@            (forall k string :: {k in n.inboundMap} (k in n.inboundMap) ==> old(k in n.inboundMap) && n.inboundMap[k] == old(n.inboundMap[k]))
 //@   ensures [keephit] m != nil ==> (forall k string :: {k in n.outboundMap} (k in n.outboundMap) == old(k in n.outboundMap)) &&
@@ -149,6 +150,8 @@ package vnet
 //@   ensures [time] clock >= old(clock)
 //@   ensures [inv] n.inv()
 //@   ensures [free] ok ==> 49152 <= port && port <= 65535 && !(n.ikey(sprintf("%s:%d", ipStr[base(n.mappedIPs[0])], port)) in n.inboundMap)
+//@   ensures [reclaimed] ok ==> !old(n.ikey(sprintf("%s:%d", ipStr[base(n.mappedIPs[0])], port)) in n.inboundMap) ||
+//@            clock > old(n.inboundMap[n.ikey(sprintf("%s:%d", ipStr[base(n.mappedIPs[0])], port))].expires)
 //@   ensures [keep] (forall k string :: {k in n.outboundMap} (k in n.outboundMap) ==> old(k in n.outboundMap) && n.outboundMap[k] == old(n.outboundMap[k])) &&
 //@            (forall k string :: {k in n.inboundMap} (k in n.inboundMap) ==> old(k in n.inboundMap) && n.inboundMap[k] == old(n.inboundMap[k]))
 //@   loop 1 invariant [inv] n.inv() && 0 <= i && i <= 16384 && clock >= old(clock)
@@ -172,9 +175,6 @@ package vnet
 //@            n.outboundMap[n.okey(chSrc[ref(from)], n.boundOf(from))] == atlock(n.outboundMap[n.okey(chSrc[ref(from)], n.boundOf(from))]) &&
 //@            chSrc[ref(to)] == atlock(n.outboundMap[n.okey(chSrc[ref(from)], n.boundOf(from))].mapped) &&
 //@            n.outboundMap[n.okey(chSrc[ref(from)], n.boundOf(from))].expires >= tLook + n.natType.MappingLifeTime
-//@   ensures [fresh] to != nil && !(atlock(n.okey(chSrc[ref(from)], n.boundOf(from)) in n.outboundMap) &&
-//@            !(tLook > atlock(n.outboundMap[n.okey(chSrc[ref(from)], n.boundOf(from))].expires))) ==>
-//@            !atlock(n.ikey(chSrc[ref(to)]) in n.inboundMap) || atlock(tLook > n.inboundMap[n.ikey(chSrc[ref(to)])].expires) || true
 //@   ensures [local] to != nil ==> n.outboundMap[n.okey(chSrc[ref(from)], n.boundOf(from))].local == chSrc[ref(from)] &&
 //@            n.outboundMap[n.okey(chSrc[ref(from)], n.boundOf(from))].bound == n.boundOf(from)
 //@   ensures [permit] to != nil ==> (n.fkeyOut(from) in n.outboundMap[n.okey(chSrc[ref(from)], n.boundOf(from))].filters)
